@@ -35,18 +35,20 @@ def _accepts(fn, *a):
 
 CONDS = [
     Cond("requires_value_matches_reference", '''
-def requires_value_matches_reference(opt: bool, en: bool, has_opt: bool, has_dep: bool, dep_opt: bool, dep_en: bool,
+def requires_value_matches_reference(opt: bool, en: bool, has_opt: bool, has_dep: bool, dep_opt_state: int, dep_en: bool,
                                      dep_val: bool, dtype_enabled: bool, has_group: bool, gopt: bool, gen: bool) -> bool:
     """
+    pre: 0 <= dep_opt_state < 3
     post: _
     """
+    dep_opt = dep_opt_state == 2          # 0: no 'optional' member, 1: explicit False, 2: True
     form = {"label": "a", "value": 1}
     if has_opt:
         form["optional"] = opt
         form["enabled"] = en
     dep = {"label": "d", "value": dep_val}
-    if dep_opt:
-        dep["optional"] = True
+    if dep_opt_state:
+        dep["optional"] = dep_opt
         dep["enabled"] = dep_en
     if has_dep:
         form["dependency"] = "d"
@@ -73,7 +75,7 @@ def requires_value_matches_reference(opt: bool, en: bool, has_opt: bool, has_dep
     else:
         exp = True
     return bool(got) == bool(exp)
-''', "requires_value == reference hierarchy (groupOptional > dependency > optional) for every combination of the 11 switches"),
+''', "requires_value == reference hierarchy (groupOptional > dependency > optional) for every combination of the 11 switches (the dependency's 'optional' member absent / False / True)"),
 
     Cond("simple_form_accepts_iff_valid", '''
 def simple_form_accepts_iff_valid(value: Val, form_value: Union[bool, int, str], has_optional: bool, optional: bool,
@@ -384,15 +386,86 @@ def enforcer_pool_stateless_long(vs: List[Val], v: Val) -> bool:
 ]
 
 
+# ---------------------------------------------------------------------------------------------------------------
+# association / property-group-type validators need a workspace object graph: real in-memory Workspace driven by the symx
+# explorer with a symbolic choice of the referenced parent and of the value
+# ---------------------------------------------------------------------------------------------------------------
+import numpy as _np
+
+from .common import Scenario, run_property
+
+
+class AssociationValidation(Scenario):
+    pid = "C15"
+
+    def body(self, cx):
+        from geoh5py.workspace import Workspace
+        from geoh5py.groups import ContainerGroup
+        from geoh5py.objects import Points
+        from geoh5py.shared.validators import AssociationValidator, PropertyGroupValidator
+        from geoh5py.shared.exceptions import BaseValidationError
+        ws = Workspace()
+        top = ContainerGroup.create(ws, name="top")
+        sub = ContainerGroup.create(ws, name="sub", parent=top)
+        obj = Points.create(ws, vertices=_np.zeros((2, 3)), name="obj", parent=sub)
+        dat = obj.add_data({"d": {"values": _np.zeros(2)}})
+        pg = obj.find_or_create_property_group(name="pg", properties=[dat.uid], property_group_type="Multi-element")
+        other = Points.create(ws, vertices=_np.zeros((2, 3)), name="other")
+        odat = other.add_data({"od": {"values": _np.zeros(2)}})
+        other_ws = Workspace()
+        alien = Points.create(other_ws, vertices=_np.zeros((2, 3)), name="alien")
+        parents = [ws, top, sub, obj, other]
+        values = [top, sub, obj, dat, pg, other, odat, alien]
+        pi, vi = int(cx.int("parent", 0, len(parents))), int(cx.int("value", 0, len(values)))
+        as_uid = bool(cx.bool("value_given_as_identifier"))
+        parent, value = parents[pi], values[vi]
+
+        def below(p, v):
+            if p is ws:
+                return v is not alien
+            node = v
+            while True:
+                node = getattr(node, "parent", None)
+                if node is None or node is ws.root and p is not ws.root:
+                    return False
+                if node is p:
+                    return True
+        exp = below(parent, value)
+        try:
+            AssociationValidator.validate("p", value.uid if as_uid else value, parent)
+            ok = True
+        except BaseValidationError:
+            ok = False
+        cx.prove(ok == exp, f"value accepted iff it belongs to the referenced parent (parent={getattr(parent, 'name', 'workspace')}, "
+                            f"value={value.name})", "association")
+        # property-group type
+        kind = ["Multi-element", "3D vector", "Strike & dip"][int(cx.int("pg_type", 0, 3))]
+        try:
+            PropertyGroupValidator.validate("p", pg, kind)
+            ok2 = True
+        except BaseValidationError:
+            ok2 = False
+        cx.prove(ok2 == (kind == "Multi-element"), "a property group is accepted iff it has the declared type", "property group type")
+        return "ok"
+
+
 def main(tier, seed):
+    rc1 = run_property(
+        "C15", [AssociationValidation()], tier, seed,
+        assumptions=["association / property-group validators: real in-memory Workspace with a three-level tree; the referenced "
+                     "parent, the value (entity or identifier) and the declared group type are symbolic choices, one path each"],
+        outside=["uuid and type-uid enforcers", "longer strings / larger integers / longer call histories"],
+        bounds="parents {workspace, group, sub-group, object, other object} x values {groups, object, data, property group, "
+               "unrelated object/data, entity of another workspace} x entity/identifier",
+        expected_outcomes={"AssociationValidation": {"ok"}}, jobs=1, validate_max=0,
+    )
     conds = CONDS + ((CONDS_THOROUGH + _thorough_variants()) if tier == "thorough" else [])
-    return run_xh(
+    rc2 = run_xh(
         "C15", PRELUDE, conds, tier, seed,
         assumptions=["CrossHair 0.0.110 / z3 decide each condition over all paths within the stated value bounds",
                      "values: None, bool, int in [-1,2], str of length <= 1; choice lists of 2 entries; histories of 2-4 calls",
                      "reference semantics for requires_value written from the function's own docstring hierarchy"],
-        outside=["association / property-group validators and enforcers that need a workspace object graph",
-                 "uuid and type-uid enforcers (uuid parsing of symbolic strings does not terminate in CrossHair)",
+        outside=[                 "uuid and type-uid enforcers (uuid parsing of symbolic strings does not terminate in CrossHair)",
                  "longer strings / larger integers / longer call histories"],
         bounds="all 2^11 switch combinations for requires_value; values None|bool|int[-1,2]|str(len<=1); sequences of <=3 (thorough: <=5) calls",
         functions=["geoh5py.ui_json.utils:requires_value (+ group/dependency/optional helpers)",
@@ -401,4 +474,6 @@ def main(tier, seed):
                    "geoh5py.ui_json.enforcers:EnforcerPool.enforce/_capture_error/_raise_errors, TypeEnforcer, ValueEnforcer",
                    "geoh5py.ui_json.parameters:Parameter.value / validate and subclasses",
                    "geoh5py.ui_json.forms:FormParameter member access (descriptors.FormValueAccess), form(), active"],
+        merge_evidence=True,
     )
+    return 1 if 1 in (rc1, rc2) else max(rc1, rc2)
